@@ -142,7 +142,7 @@ def _get_resp_headers(sock, success_statuses: tuple = SUCCESS_STATUSES) -> tuple
     status, resp_headers, status_message = read_headers(sock)
     if status not in success_statuses:
         content_len = resp_headers.get("content-length")
-        if content_len and content_len.isdigit():
+        if content_len and content_len.isdecimal():
             # read (the beginning of) the body of the HTTP error message response
             # and include it in the exception; the amount is capped, it must not
             # be driven by a length the peer merely declared
